@@ -1,5 +1,10 @@
 ----------------------------- MODULE V1ArchiveMC -----------------------------
 EXTENDS V1Archive
+(* Alpha-Twin: the text of Alpha in other case and wrapping -- same normalised text, its own key.
+   COPYING.txt.dist, Murmur.hash-1.0: extensions inside the name. *)
 MCCands == {[name |-> "Alpha", kind |-> "lic"], [name |-> "Beta", kind |-> "lic"], [name |-> "Alpha.header", kind |-> "hdr"],
-            [name |-> "OnlyNotice", kind |-> "empty"], [name |-> "README.md", kind |-> "other"], [name |-> "notes.text", kind |-> "other"]}
+            [name |-> "OnlyNotice", kind |-> "empty"],
+            [name |-> "Alpha-Twin", kind |-> "twin"],
+            [name |-> "COPYING.txt.dist", kind |-> "lic"], [name |-> "Murmur.hash-1.0", kind |-> "lic"],
+            [name |-> "README.md", kind |-> "other"], [name |-> "notes.text", kind |-> "other"]}
 =============================================================================
